@@ -78,7 +78,7 @@ Proof.
   intros cwd p size junk m Hok Hj Hzc Hzp Ha Hs. cbn zeta.
   assert (Hfb : ok (mkbuf junk false) MAX_PATH) by (split; [exact Hj|reflexivity]).
   destruct (join_algebra_l cwd p MAX_PATH _ Hfb Hzc Hzp) as [J1 J2].
-  unfold abspath. rewrite Ha.
+  unfold abspath, abspath_with. rewrite Ha.
   assert (S1 : (size <=? 1) = false) by (apply Z.leb_gt; exact Hs). rewrite S1.
   destruct (join cwd p MAX_PATH (mkbuf junk false)) as [r fb] eqn:Ej. cbn [fst snd] in J1, J2.
   split.
